@@ -2,6 +2,7 @@ import WireV.Sets
 import WireV.Emit
 import WireV.Sig
 import WireV.Names
+import WireV.NameEmit
 /-! # WireV.Driver — line protocol of the unit tier (one request per line, one reply per line) -/
 namespace WireV
 
@@ -206,6 +207,56 @@ def runNames (op : String) (ws : List String) : String :=
     out (typeVariableName (nameFuel tk) shape (unEq dflt) tf (fun n => tk.contains n))
   | _, _ => "bad-request"
 
+/-- shape token: `b:=name` | `n:=obj` | `np:=obj:=pkg` | `o` -/
+def parseShape (w : String) : TyShape :=
+  match w.splitOn ":" with
+  | ["b", a] => .basic (unEq a)
+  | ["n", a] => .named (unEq a) none
+  | ["np", a, b] => .named (unEq a) (some (unEq b))
+  | _ => .other
+
+/-- `namefile` request: `scope =n… ; EV …` where events are
+    `Q =pkgName =path` | `V shape` | `I np (=name shape)… ns (shape isFunc hasCleanup)…`, separated by `;`.
+    One reply token group per event. -/
+def runNameFile (ws : List String) : String :=
+  let groups := (ws.foldl (fun (acc : List (List String)) w =>
+      if w == ";" then acc ++ [[]] else
+      match acc.getLast? with
+      | some g => acc.dropLast ++ [g ++ [w]]
+      | none => [[w]]) [[]])
+  match groups with
+  | [] => "bad-request"
+  | scope :: evs =>
+    let fileScope := (scope.drop 1).map unEq
+    let total := fileScope.length + 2 * ws.length + 60
+    let step := fun (st : NameEnv × List String) (ev : List String) =>
+      let (e, out) := st
+      match ev with
+      | ["Q", nm, path] =>
+        match qualifyImport total e (unEq nm) (unEq path) with
+        | some (r, e') => (e', out ++ ["Q=" ++ r])
+        | none => (e, out ++ ["Q!fuel"])
+      | ["V", sh] =>
+        match valueVarName total e (parseShape sh) with
+        | some (r, e') => (e', out ++ ["V=" ++ r])
+        | none => (e, out ++ ["V!fuel"])
+      | "I" :: np :: rest =>
+        let n := np.toNat!
+        let ptoks := rest.take (2 * n)
+        let stoks := (rest.drop (2 * n)).drop 1
+        let rec mkP : List String → List ParamInfo
+          | a :: b :: t => { name := unEq a, shape := parseShape b } :: mkP t
+          | _ => []
+        let rec mkS : List String → List StepInfo
+          | a :: b :: c :: t => { shape := parseShape a, isFunc := b == "1", hasCleanup := c == "1" } :: mkS t
+          | _ => []
+        match nameInjector total e (mkP ptoks) (mkS stoks) with
+        | some ig => (e, out ++ [s!"I err={ig.errVar} params={",".intercalate ig.params} locals={",".intercalate ig.locals} cleanups={",".intercalate ig.cleanups}"])
+        | none => (e, out ++ ["I!fuel"])
+      | _ => (e, out ++ ["bad-event"])
+    let (_, out) := evs.foldl step ({ fileScope := fileScope, imports := [], values := [] }, [])
+    joinWith " ; " out
+
 def parseNats (ws : List String) : Option (List Nat) := ws.mapM String.toNat?
 
 def handleLine (line : String) : String :=
@@ -218,6 +269,7 @@ def handleLine (line : String) : String :=
   | "plan" :: rest => match parseNats rest with
     | some ns => runPlanner true ns
     | none => "bad-request nat"
+  | "namefile" :: rest => runNameFile rest
   | "disamb" :: rest => runNames "disamb" rest
   | "export" :: rest => runNames "export" rest
   | "unexport" :: rest => runNames "unexport" rest
